@@ -26,6 +26,11 @@ import (
 // to the circuit breaker. The response has already been written and recorded by then.
 var errBackendFailure = errors.New("backend request failed")
 
+// errNoBackend reports a request that the balancer answered itself because no backend is in
+// rotation: no backend was asked, so for the circuit breaker it is neither a success (a
+// half-open trial must not close the breaker on it) nor a failed proxied request
+var errNoBackend = fmt.Errorf("no healthy backend: %w", circuitbreaker.ErrNotCounted)
+
 // Strategy defines the interface for load balancing strategies
 type Strategy interface {
 	NextBackend(r *http.Request) *Backend
@@ -770,8 +775,8 @@ func (lb *LoadBalancer) ServeHTTP(w http.ResponseWriter, r *http.Request) {
 		err := lb.circuitBreaker.Execute(func() error {
 			return lb.handleRequest(w, r, startTime)
 		})
-		if err == errBackendFailure {
-			// Counted as a breaker failure; proxyRequest already answered and recorded it
+		if err == errBackendFailure || err == errNoBackend {
+			// Counted as a breaker failure (or not counted at all); already answered and recorded
 			return
 		}
 		if err != nil {
@@ -796,7 +801,7 @@ func (lb *LoadBalancer) ServeHTTP(w http.ResponseWriter, r *http.Request) {
 		}
 	} else {
 		// Execute without circuit breaker
-		if err := lb.handleRequest(w, r, startTime); err != nil && err != errBackendFailure {
+		if err := lb.handleRequest(w, r, startTime); err != nil && err != errBackendFailure && err != errNoBackend {
 			logger.Error().Err(err).Msg("request handling failed")
 		}
 	}
@@ -809,7 +814,7 @@ func (lb *LoadBalancer) handleRequest(w http.ResponseWriter, r *http.Request, st
 		logging.WithContext(r.Context()).Warn().Str("path", r.URL.Path).Msg("no healthy backend available")
 		http.Error(w, "No healthy backend servers available", http.StatusServiceUnavailable)
 		lb.metricsCollector.RecordResponse(false, time.Since(startTime))
-		return nil
+		return errNoBackend
 	}
 
 	// Process the request with the selected backend
